@@ -363,12 +363,18 @@ impl FCfg {
 }
 
 pub fn raw_f(depth: u32, size: u32) -> BoxedStrategy<RawF> {
+    raw_f_weighted(depth, size, 1)
+}
+
+/// `pattern_weight`: weight of the attractor / steady-state pattern production among the leaves
+/// (the other leaf weights sum to 15).
+pub fn raw_f_weighted(depth: u32, size: u32, pattern_weight: u32) -> BoxedStrategy<RawF> {
     let leaf = prop_oneof![
         4 => any::<u16>().prop_map(RawF::Prop),
         4 => any::<u16>().prop_map(RawF::Var),
         1 => any::<bool>().prop_map(RawF::Const),
         2 => any::<u16>().prop_map(RawF::Wild),
-        1 => (0..8u8, any::<u16>()).prop_map(|(v, s)| RawF::Pattern(v, s)),
+        pattern_weight => (0..8u8, any::<u16>()).prop_map(|(v, s)| RawF::Pattern(v, s)),
         3 => (any::<u16>(), any::<u16>()).prop_map(|(a, b)| RawF::Repeat(a, b)),
     ];
     leaf.prop_recursive(depth, size, 2, |inner| {
